@@ -15,26 +15,29 @@ def lowerAt (toks : List Tok) (i : Nat) : Word := (toks.getD i default).lower
 def indicesWhere (p : Tok → Bool) (toks : List Tok) : List Nat :=
   (enumFrom 0 toks).filterMap (fun (i, t) => if p t then some i else none)
 
+/-- one probe of the annotation passes: is the word accepted on the scratch builder? (the builder is
+returned because the Rust probes mutate one shared scratch `DigitString`) -/
+def probe (apply : Word → DS → Res × DS) (w : Word) (b : DS) : Bool × DS :=
+  let (r, b') := apply w b
+  (r.isNone, b')
+
+/-- the decision for the `o` at position `j` of the significant tokens:
+`j > 0 && apply(prev).is_ok() || j+1 < len && apply(next).is_ok()` with Rust's short-circuit evaluation -/
+def enDecide (apply : Word → DS → Res × DS) (sig : List Nat) (j : Nat) (toks : List Tok) (b : DS) : Bool × DS :=
+  let r1 : Bool × DS := if j > 0 then probe apply (lowerAt toks (sig.getD (j - 1) 0)) b else (false, b)
+  if r1.1 then (true, r1.2)
+  else if j + 1 < sig.length then probe apply (lowerAt toks (sig.getD (j + 1) 0)) r1.2
+  else (false, r1.2)
+
 /-- English: `o` is a zero only next to a number word. `sig` = significant token indices. -/
 def annotateEnLoop (apply : Word → DS → Res × DS) (sig : List Nat) :
     List Nat → Nat → DS → List Tok → List Tok
   | [], _, _, toks => toks
   | i :: rest, j, b, toks =>
     if lowerAt toks i == ['o'] then
-      -- `j > 0 && apply(prev).is_ok() || j+1 < len && apply(next).is_ok()` with short-circuit
-      let (ok1, b1) : Bool × DS :=
-        if j > 0 then
-          let (r, b') := apply (lowerAt toks (sig.getD (j - 1) 0)) b
-          (r.isNone, b')
-        else (false, b)
-      let (ok, b2) : Bool × DS :=
-        if ok1 then (true, b1)
-        else if j + 1 < sig.length then
-          let (r, b') := apply (lowerAt toks (sig.getD (j + 1) 0)) b1
-          (r.isNone, b')
-        else (false, b1)
-      if ok then annotateEnLoop apply sig rest (j + 1) DS.new toks
-      else annotateEnLoop apply sig rest (j + 1) b2 (setNan toks i)
+      let d := enDecide apply sig j toks b
+      if d.1 then annotateEnLoop apply sig rest (j + 1) DS.new toks      -- `b.reset()`
+      else annotateEnLoop apply sig rest (j + 1) d.2 (setNan toks i)
     else annotateEnLoop apply sig rest (j + 1) b toks
 
 def annotateEn (cc : CharClasses) (apply : Word → DS → Res × DS) (toks : List Tok) : List Tok :=
